@@ -15,6 +15,8 @@
 import RbModel.Lemmas.Flags
 import RbModel.Lemmas.FlagCarry
 import RbModel.Lemmas.MatchSpanFlags
+import RbModel.Lemmas.PairSpanKern
+import RbModel.Gen.PairFlag
 
 namespace RbModel.Flags
 
@@ -802,3 +804,178 @@ example : ∃ c', (revMatchI spanRevCtx [[9]] [[3]] >>= revFinish spanRevCtx 7) 
   ⟨_, rfl, rfl, by decide, by decide, rfl, rfl, by decide⟩
 
 end RbModel.Flags
+
+
+/-! ### a declining PairPos / a kern machine that finds no pair flags what it read (PairFlag.lean, Lemmas/PairSpan*.lean) -/
+namespace RbModel.PairFlag
+open RbModel RbModel.Gsub RbModel.GposFlag RbModel.Flags
+open RbModel.Gpos (Pos Dir ValueRecordD pairApplyD)
+
+/-- **(c) every path of `PairAdjustment::apply` that positions nothing, checked against the code** (PRODUCE_UNSAFE_TO_CONCAT
+    requested; `rs` = the indices read, `why` = the path):
+    * `uncovered` — `coverage().get(first)?`: only the current glyph was read; nothing changes, nothing is flagged (as for every
+      lookup type: the coverage test of `cur(0)` is what `apply_forward` does for each subtable);
+    * `noSecond` — `iter.next` fails: the call is `unsafe_to_concat(idx, unsafe_to)` with `unsafe_to` = one past the glyph
+      that stopped the iterator (or `len`): EVERY glyph read — the skipped ones and the rejected one — lies in
+      `[idx, unsafe_to)` and carries UNSAFE_TO_CONCAT afterwards;
+    * `noRecord` — format 1: the pair is not in the PairSet; format 2: the class pair is outside the matrix: the call is
+      `unsafe_to_concat(idx, j + 1)` with `j` = `iter.index()` = the inspected and rejected glyph, NOT `(idx, idx + 2)`; every
+      glyph read, `j` included, is flagged;
+    * `records` with no working record (empty records of a format 2 class pair, zero values: "boring"): the function returns
+      `Some(())`, the call is `unsafe_to_concat(idx, j + 1)`, every glyph read is flagged, and stays flagged after `finish`;
+    * `noSet` — format 1, `sets.get(coverage_index)?` fails (null / unreadable PairSet offset) AFTER the iterator ran and the
+      second glyph was read: the function returns `None` and flags NOTHING although it read `(idx, j]` (HarfBuzz reads a Null
+      PairSet, finds no pair and flags `[idx, j + 1)`).  Not a violation of the property: on this path nothing depends on what
+      was read — whatever the other glyphs are, the result is "buffer and positions unchanged, `None`" (this conjunct), so no
+      redistribution of the text can change the output; recorded in the report as a deviation from upstream, not a finding. -/
+theorem C04_pairpos_fail_flags_inspected (c : Ctx) (p p' : Array Pos) (pd : PairData) (useX useY : Bool) (d : Dir)
+    (b' : Buf) (ap : Bool) (h : pairPosApplyIt c p pd useX useY d = .ok (b', p', ap))
+    (hidx : c.buf.idx < c.buf.len) (hlen : c.buf.len ≤ c.buf.info.length)
+    (hu32 : ∀ k x, c.buf.idx ≤ k → k < c.buf.len → c.buf.info[k]? = some x → x.cluster ≤ U32MAX)
+    (hreq : c.buf.flags &&& Gen.Buf.produceUnsafeToConcat ≠ 0) :
+    ∃ found rs why, pairFindI c pd = .ok (found, rs, why) ∧
+      pairPosApply c.buf p found useX useY d = .ok (b', p', ap) ∧
+      (why = .uncovered → rs = [c.buf.idx] ∧ b' = c.buf ∧ p' = p ∧ ap = false) ∧
+      (why = .noSet → b' = c.buf ∧ p' = p ∧ ap = false ∧ ∃ j, c.buf.idx < j ∧ j ∈ rs) ∧
+      (why = .noSecond → ∃ u, found = .noSecond u ∧ PairSpan c u rs ∧
+        c.buf.unsafeToConcat c.buf.idx (some u) = .ok b' ∧ p' = p ∧ ap = false ∧
+        ∀ i ∈ rs, ∃ x, c.buf.info[i]? = some x ∧ ConcatFlagged b'.info i x) ∧
+      (why = .noRecord → ∃ j, found = .noRecord j ∧ c.buf.idx < j ∧ j ∈ rs ∧ PairSpan c (j + 1) rs ∧
+        c.buf.unsafeToConcat c.buf.idx (some (j + 1)) = .ok b' ∧ p' = p ∧ ap = false ∧
+        ∀ i ∈ rs, ∃ x, c.buf.info[i]? = some x ∧ ConcatFlagged b'.info i x) ∧
+      (why = .records → ∃ j v1 v2 f1 f2, found = .records j v1 v2 ∧ c.buf.idx < j ∧ j ∈ rs ∧ PairSpan c (j + 1) rs ∧
+        liftG (pairApplyD v1 v2 useX useY d p c.buf.idx j) = .ok (p', f1, f2) ∧ ap = true ∧
+        ((f1 || f2) = false →
+          ∃ b1, c.buf.unsafeToConcat c.buf.idx (some (j + 1)) = .ok b1 ∧ pairFinish b1 j (!v2.isEmpty) = .ok b' ∧
+            ∀ i ∈ rs, ∃ x, c.buf.info[i]? = some x ∧ ConcatFlagged b1.info i x ∧
+              ∃ y, b'.info[i]? = some y ∧ y.cluster = x.cluster ∧ y.mask &&& Flag.UNSAFE_TO_CONCAT ≠ 0)) := by
+  obtain ⟨found, rs, why, hF, _, hA⟩ := pairPosApplyIt_split c p p' pd useX useY d b' ap h
+  obtain ⟨s1, s2, s3, s4, s5, s6, s7, s8⟩ := pairFindI_span c pd found rs why hF hidx
+  refine ⟨found, rs, why, hF, hA, ?_, ?_, ?_, ?_, ?_⟩
+  · intro hw
+    obtain ⟨rfl, hrs⟩ := s1 hw
+    obtain ⟨e1, e2, e3⟩ := pairPosApply_notCovered _ _ _ _ _ _ _ _ hA
+    exact ⟨hrs, e1, e2, e3⟩
+  · intro hw
+    obtain ⟨rfl, j, hij, hjm, _⟩ := s3 hw
+    obtain ⟨e1, e2, e3⟩ := pairPosApply_notCovered _ _ _ _ _ _ _ _ hA
+    exact ⟨e1, e2, e3, j, hij, hjm⟩
+  · intro hw
+    obtain ⟨u, rfl, sp⟩ := s2 hw
+    obtain ⟨e1, e2, e3⟩ := pairPosApply_noSecond _ _ _ _ _ _ _ _ _ hA
+    exact ⟨u, rfl, sp, e1, e2, e3, (sp.concatFlagged e1 hlen hreq).2.2⟩
+  · intro hw
+    obtain ⟨j, rfl, hij, hjm, sp⟩ := s4 hw
+    obtain ⟨e1, e2, e3⟩ := pairPosApply_noRecord _ _ _ _ _ _ _ _ _ hA
+    exact ⟨j, rfl, hij, hjm, sp, e1, e2, e3, (sp.concatFlagged e1 hlen hreq).2.2⟩
+  · intro hw
+    obtain ⟨j, v1, v2, rfl, hij, hjm, sp⟩ := s5 hw
+    obtain ⟨hap, f1, f2, hl, _, hco⟩ := pairPosApply_records _ _ _ _ _ _ _ _ _ _ _ hA
+    refine ⟨j, v1, v2, f1, f2, rfl, hij, hjm, sp, hl, hap, ?_⟩
+    intro hf
+    obtain ⟨b1, hb1, hfin⟩ := hco hf
+    obtain ⟨hb1', hg1, hfl⟩ := sp.concatFlagged hb1 hlen hreq
+    have hidx1 : b1.idx = c.buf.idx := by rw [hb1']
+    have hlen1 : b1.len = c.buf.len := by rw [hb1']
+    obtain ⟨hg2, _⟩ := pairFinish_grown b1 b' j (!v2.isEmpty) hfin (by omega) (by have := sp.hi; omega)
+      (by rw [hlen1, ← hg1.1] at *; exact hlen)
+      (by rw [hidx1, hlen1]; exact hg1.u32 hu32)
+    refine ⟨b1, hb1, hfin, ?_⟩
+    intro i hi
+    obtain ⟨x, hx, hcf⟩ := hfl i hi
+    refine ⟨x, hx, hcf, ?_⟩
+    obtain ⟨y, hy, hyeq, hym⟩ := hcf
+    obtain ⟨z, hz, hzc, hzm⟩ := hg2.bit hy Flag.UNSAFE_TO_CONCAT hym
+    exact ⟨z, hz, by rw [hzc, hyeq]; rfl, hzm⟩
+
+-- non-vacuity: first 1 | mark | other 2 under IgnoreMarks, the PairSet has only (1, 3): the iterator steps over the mark, the
+-- glyph inspected and rejected is index 2, the span is [0, 3) — all three glyphs get UNSAFE_TO_CONCAT ([0, 2) would miss it)
+example : (pairPosApplyIt (spanPairCtx 64 2) spanPairPos spanPairData false false .ltr).map pairView
+    = .ok ([258, 258, 258], 0, [600, 0, 500], false) := by rfl
+example : (pairFindI (spanPairCtx 64 2) spanPairData).map (fun r => (r.2.1, r.2.2)) = .ok ([0, 1, 2], .noRecord) := by rfl
+-- no second glyph at all (the mark is the last glyph): span [0, len)
+example : (pairFindI { spanPairCtx 64 2 with buf := { (spanPairCtx 64 2).buf with len := 2 } } spanPairData).map
+    (fun r => (r.2.1, r.2.2)) = .ok ([0, 1], .noSecond) := by rfl
+example : (spanPairCtx 64 2).buf.idx < (spanPairCtx 64 2).buf.len ∧
+    (spanPairCtx 64 2).buf.len ≤ (spanPairCtx 64 2).buf.info.length ∧
+    (spanPairCtx 64 2).buf.flags &&& Gen.Buf.produceUnsafeToConcat ≠ 0 := ⟨by decide, by decide, by decide⟩
+
+/-- **`machine_kern` flags the whole buffer UNSAFE_TO_CONCAT** (`buffer.unsafe_to_concat(None, None)` is its first
+    statement; legacy kern has no per-pair concat call): when the flag is requested every glyph of `[0, len)` carries it at the
+    end — in particular every glyph the iterator read on a path that kerned nothing. -/
+theorem C04_kern_whole_buffer_concat (f : Font) (b : Buf) (p : Array Pos) (kernMask : Nat) (d : Dir) (cs : Bool)
+    (kernOf : Nat → Nat → Int) (bF : Buf) (pF : Array Pos) (flF : Bool)
+    (h : machineKernF f b p kernMask d cs kernOf = .ok (bF, pF, flF))
+    (hlen : b.len ≤ b.info.length) (hu32 : ∀ q x, q < b.len → b.info[q]? = some x → x.cluster ≤ U32MAX)
+    (hmono : MonoRange b.info 0 b.len) (hreq : b.flags &&& Gen.Buf.produceUnsafeToConcat ≠ 0) :
+    ∀ q x, q < b.len → b.info[q]? = some x →
+      ∃ y, bF.info[q]? = some y ∧ y.cluster = x.cluster ∧ y.mask &&& Flag.UNSAFE_TO_CONCAT ≠ 0 := by
+  have he := machineKernFI_erase f b p kernMask d cs kernOf
+  rw [h] at he
+  cases hI : machineKernFI f b p kernMask d cs kernOf with
+  | error e => rw [hI] at he; cases he
+  | ok r =>
+    obtain ⟨⟨bF', pF', flF'⟩, evs, iEnd⟩ := r
+    rw [hI] at he
+    simp only [Except.map, Except.ok.injEq, Prod.mk.injEq] at he
+    obtain ⟨rfl, rfl, rfl⟩ := he
+    unfold machineKernFI at hI
+    cases h0 : b.unsafeToConcat 0 none with
+    | error e => simp [h0] at hI
+    | ok b0 =>
+      simp only [h0] at hI
+      obtain ⟨hg0, hc0⟩ := leadingConcat_spec b b0 h0 hlen
+      obtain ⟨_, hg, _, _⟩ := kernEntry_spec false f kernMask _ cs kernOf b b0 p bF' pF' flF' evs iEnd hg0 hI ⟨hlen, hu32, hmono⟩
+      intro q x hq hx
+      obtain ⟨y, hy, hyeq, hym⟩ := hc0 hreq q x hq hx
+      obtain ⟨z, hz, hzc, hzm⟩ := hg.2.bit hy Flag.UNSAFE_TO_CONCAT hym
+      exact ⟨z, hz, by rw [hzc, hyeq]; rfl, hzm⟩
+
+/-- **kerx simple formats: an iterator miss flags what it read**: `apply_simple_kerning` of aat_layout_kerx_table.rs calls
+    `unsafe_to_concat(i, unsafe_to)` when `iter.next` fails; every index the iterator read lies in `(i, unsafe_to)` and every
+    glyph of `[i, unsafe_to)` carries UNSAFE_TO_CONCAT at the end of the function (requested flag). -/
+theorem C04_kerx_simple_miss_flags_inspected (lc : Bool) (f : Font) (b : Buf) (p : Array Pos) (kernMask : Nat) (d : Dir)
+    (cs : Bool) (kernOf : Nat → Nat → Int) (bF : Buf) (pF : Array Pos) (flF : Bool) (evs : List KEvent) (iEnd : Nat)
+    (h : kerxSimpleFI lc f b p kernMask d cs kernOf = .ok ((bF, pF, flF), evs, iEnd))
+    (hlen : b.len ≤ b.info.length) (hu32 : ∀ q x, q < b.len → b.info[q]? = some x → x.cluster ≤ U32MAX)
+    (hmono : MonoRange b.info 0 b.len) (hreq : b.flags &&& Gen.Buf.produceUnsafeToConcat ≠ 0) :
+    ∀ e ∈ evs, e.found = false →
+      e.kern = 0 ∧ e.i < e.stop ∧ e.stop ≤ b.len ∧ (∀ r ∈ e.reads, e.i < r ∧ r < e.stop) ∧
+      ∀ q x, e.i ≤ q → q < e.stop → b.info[q]? = some x →
+        ∃ y, bF.info[q]? = some y ∧ y.cluster = x.cluster ∧ y.mask &&& Flag.UNSAFE_TO_CONCAT ≠ 0 := by
+  unfold kerxSimpleFI at h
+  cases h0 : (if lc = true then b.unsafeToConcat 0 none else .ok b) with
+  | error e => simp [h0] at h
+  | ok b0 =>
+    simp only [h0] at h
+    have hg0 : BufGrown b b0 := by
+      cases lc with
+      | false => simp only [Bool.false_eq_true, if_false, Except.ok.injEq] at h0; subst h0; exact BufGrown.refl _
+      | true => simp only [if_true] at h0; exact (leadingConcat_spec b b0 h0 hlen).1
+    obtain ⟨_, _, _, hevs⟩ := kernEntry_spec true f kernMask _ cs kernOf b b0 p bF pF flF evs iEnd hg0 h ⟨hlen, hu32, hmono⟩
+    intro e hm hf
+    obtain ⟨_, a1, _⟩ := hevs e hm
+    obtain ⟨c0, c1, c2, c3, c4⟩ := a1 hf
+    exact ⟨c0, c1, c2, c3, c4 rfl hreq⟩
+
+-- non-vacuity: the last base finds no partner: the event (3, [], false, 4, 0) of the examples in Props/C03.lean; here with a
+-- trailing mark: the iterator reads it (index 2), runs off the buffer, and the span [1, 3) is flagged
+example : (kerxSimpleFI false {}
+      { info := [(1, 256, 2, 7, 0), (2, 256, 2, 7, 1), (9, 256, 8, 7, 2)].map infoK, len := 3, flags := 64 }
+      #[{}, {}, {}] 256 .ltr false (fun _ _ => 0)).map kernView
+    = .ok ([256, 258, 258], [0, 0, 0], [(0, [1], true, 1, 0), (1, [2], false, 3, 0), (2, [], false, 3, 0)], 3) := by rfl
+
+/-- **the compiled crate flags the span the theorem says** (regenerated on every run, tools/gens/pairflag.py): PairPos
+    format 1 on `first mark other` under IgnoreMarks, the pair not in the PairSet — the masks the crate left are the masks of
+    the model, whose declining path is `noRecord j` with `j = 2` behind the skipped mark and span `[idx, j + 1)`
+    (`C04_pairpos_fail_flags_inspected`); a crate that flags `[idx, idx + 2)` leaves glyph 2 without UNSAFE_TO_CONCAT. -/
+theorem C04_gen_pairpos_miss_span :
+    (pairPosApplyIt { spanPairCtx Gen.PairFlag.bufFlags 2 with
+        buf := { (spanPairCtx Gen.PairFlag.bufFlags 2).buf with info := Gen.PairFlag.pairInfosMiss.map infoP } }
+      spanPairPos spanPairData false false .ltr).map (fun r => (r.1.info.map (·.mask), r.2.2))
+    = .ok (Gen.PairFlag.pairMasksMiss, Gen.PairFlag.pairAppliedMiss) ∧
+    (pairFindI { spanPairCtx Gen.PairFlag.bufFlags 2 with
+        buf := { (spanPairCtx Gen.PairFlag.bufFlags 2).buf with info := Gen.PairFlag.pairInfosMiss.map infoP } }
+      spanPairData).map (fun r => (r.2.1, r.2.2)) = .ok ([0, 1, 2], .noRecord) := ⟨by rfl, by rfl⟩
+
+end RbModel.PairFlag
